@@ -20,8 +20,8 @@ import (
 
 func init() {
 	fw.Register(&fw.Check{
-		ID: "C17",
-		Rule: "cases: DID documents within the shipped size limits (0..4 verification methods of the supported types, 1..5 relationships each, JWK and raw-bytes material, 0..2 services, also-known-as): VDR.Create -> the long-form DID is decoded by the harness (strict base64url, reference JCS, reference suffix hash) -> VDR.Read must give an equivalent document, the requested id, the short form as equivalent id and the embedded commitments; 12 repeated creations must give one DID; ProcessOperation's result must resolve to itself. Rejections through DocumentHandler.ResolveDocument: every single-character substitution at every position of a valid DID (4 substitutes per position), re-encodings of the initial state (whitespace, member order, '=' padding, embedded newline, non-canonical trailing bits), suffix swapped with another DID's, short form, and handler/DID namespaces related by prefix (did:io, did:ion, did:ionx, did:ion:x, did:ION). distinct = (document shape, rejection class, position bucket).",
+		ID:          "C17",
+		Rule:        "cases: DID documents within the shipped size limits (0..4 verification methods of the supported types, 1..5 relationships each, JWK and raw-bytes material, 0..2 services, also-known-as): VDR.Create -> the long-form DID is decoded by the harness (strict base64url, reference JCS, reference suffix hash) -> VDR.Read must give an equivalent document, the requested id, the short form as equivalent id and the embedded commitments; 12 repeated creations must give one DID; ProcessOperation's result must resolve to itself. Rejections through DocumentHandler.ResolveDocument: every single-character substitution at every position of a valid DID (4 substitutes per position), re-encodings of the initial state (whitespace, member order, '=' padding, embedded newline, non-canonical trailing bits), suffix swapped with another DID's, short form, and handler/DID namespaces related by prefix (did:io, did:ion, did:ionx, did:ion:x, did:ION). distinct = (document shape, rejection class, position bucket).",
 		Assumptions: []string{"harness base64url / JCS / multihash codec", "did-go document parsing for reading back the resolved document"},
 		Require:     []string{"created", "read-back", "repeat-creations", "single-char-changes", "single-char-insertions", "single-char-deletions", "reencodings", "namespace-pairs", "process-operation"},
 		Workers:     func(string) int { return 15 },
@@ -127,6 +127,11 @@ func c17Doc(r *fw.Rand) (*docdid.Doc, []c17Key, string) {
 		if r.Chance(1, 3) {
 			svc.Accept = []string{"didcomm/aip2;env=rfc19"}
 			shape += "A"
+		}
+		if r.Chance(1, 3) {
+			// custom members: names related by prefix, a control character in a value
+			svc.Properties = map[string]interface{}{"origin": "o", "origins": []interface{}{"a", "b"}, "note": "rev\u001e" + fmt.Sprint(r.Intn(9))}
+			shape += "X"
 		}
 		d.Service = append(d.Service, svc)
 		shape += "s"
@@ -496,6 +501,11 @@ func c17Equivalent(res *docdid.DocResolution, did, short string, d *docdid.Doc, 
 			}
 			if strings.Join(gotAccept, "|") != strings.Join(s.Accept, "|") {
 				return fmt.Sprintf("services: %s accept %v, supplied %v", s.ID, gotAccept, s.Accept)
+			}
+			for pk, pv := range s.Properties {
+				if !oracle.JSONEqual(oracle.MustGenericSafe(gs.Properties[pk]), oracle.MustGenericSafe(pv)) {
+					return fmt.Sprintf("services: %s member %s is %v, supplied %v", s.ID, pk, gs.Properties[pk], pv)
+				}
 			}
 			if s.Priority != nil && fmt.Sprint(gs.Priority) != fmt.Sprint(s.Priority) {
 				return fmt.Sprintf("services: %s priority %v, supplied %v", s.ID, gs.Priority, s.Priority)
